@@ -220,6 +220,8 @@ var c19templates = []string{
 	// functions below the top level, in sibling scopes with different numbers of sub-scopes
 	/* 6 */ "local function \x01c(x)\n if x then\n  return 1\n else\n  return 2\n end\nend\nlocal function \x02b()\n local function \x03h() end\n local function \x04i() end\nend\n",
 	/* 7 */ "function \x01o()\n local function \x02p()\n  local function \x03q() end\n end\n while true do\n  local function \x04r() end\n end\nend\nlocal function \x05s()\n for i = 1, 2 do\n  local function \x06t() end\n end\nend\n",
+	// a top-level local declared twice, the later declaration carrying the functions
+	/* 8 */ "local \x01c = nil\nlocal \x02c = {}\nfunction \x02c.load() end\nfunction \x02c:save() end\nlocal \x03h = false\nlocal function \x04h(a) end\n",
 }
 
 func VerifRun_C19() {
@@ -267,10 +269,17 @@ func VerifRun_C19() {
 		if d.deep {
 			class = "C19-nested-function-outline"
 		}
+		later := false
 		for _, d2 := range decls {
 			if d2.full == d.full && !locEq(d2.loc, d.loc) {
 				class = "C19-redeclared-name"
+				if d2.local == d.local && (d2.loc.StartLine > d.loc.StartLine || (d2.loc.StartLine == d.loc.StartLine && d2.loc.StartColumn > d.loc.StartColumn)) {
+					later = true
+				}
 			}
+		}
+		if class == "C19-redeclared-name" && d.local && !later {
+			class = "" // the known defect drops the earlier declarations: the last one must be listed at its place
 		}
 		found, placed := false, false
 		for i := range flat {
